@@ -269,6 +269,12 @@ func genHistory(r *common.Rand, nops int) histCase {
 	}
 	for i := 0; i < nops; i++ {
 		a := common.Pick(r, addrs)
+		if r.Intn(25) == 0 {
+			// the fourth saving operation: Config.SetCredentialsStore (DynamicStore.Put calls it)
+			hc.Ops = append(hc.Ops, opx{Op: "C", Addr: common.Pick(r, []string{"desktop", "osxkeychain", "", "pass", "secretservice", "wincred", "über"})})
+			run.Count("op:set-creds-store")
+			continue
+		}
 		switch r.Intn(10) {
 		case 0, 1, 2, 3:
 			o := opx{Op: "P", Addr: a, U: genUser(r), P: genPart(r)}
@@ -420,6 +426,7 @@ func checkFloors() []string {
 	need("init:doc", run.Scale(400, 40000))
 	need("init:symlinked-path", run.Scale(20, 2000))
 	need("store:disable-put", run.Scale(10, 1000))
+	need("op:set-creds-store", run.Scale(50, 5000))
 	need("codec:decode", run.Scale(1000, 100000))
 	need("doc:lone-surrogate", run.Scale(10, 500))
 	need("put:invalid-utf8", run.Scale(10, 500))
